@@ -167,6 +167,29 @@ fn bulk_one(kind: &str, inp: &[u8]) -> Vec<u8> {
             m.raw_result(&mut t);
             t.to_vec()
         }
+        "poly1305x" => {
+            // extreme operands: r all-ones (half of the calls) or 3/4 of its bytes 0xff, a message of 2..=6 whole blocks with 3/4
+            // of its bytes 0xff, absorbed by ONE input call (multi-block runs with near-maximal limbs)
+            use cryptoxide::mac::Mac;
+            let mut key = a32(&inp[..32]);
+            for j in 0..16 {
+                if inp[129] & 1 == 1 || inp[130 + j] & 3 != 0 {
+                    key[j] = 0xff;
+                }
+            }
+            let nblk = 2 + (inp[32] as usize) % 5;
+            let mut msg = inp[33..33 + 16 * nblk].to_vec();
+            for j in 0..msg.len() {
+                if inp[161 + j] & 3 != 0 {
+                    msg[j] = 0xff;
+                }
+            }
+            let mut m = cryptoxide::poly1305::Poly1305::new(&key);
+            m.input(&msg);
+            let mut t = [0xa5u8; 16];
+            m.raw_result(&mut t);
+            t.to_vec()
+        }
         "fe_mix" => {
             let x = Fe::from_bytes(&a32(&inp[..32]));
             let y = Fe::from_bytes(&a32(&inp[32..64]));
@@ -208,6 +231,7 @@ pub fn bulk_len(kind: &str) -> usize {
         "ed_sign" => 96,
         "ge_dsm" | "sc_muladd" => 96,
         "poly1305" => 130,
+        "poly1305x" => 257,
         _ => panic!("bulk kind {}", kind),
     }
 }
